@@ -273,6 +273,23 @@ def run(c, chk):
     # ---- R2.6 ----------------------------------------------------------------
     loop_progress(c, chk, reach)
 
+    # ---- R2.7: the parse loop never releases the same object twice / keeps a released one ----
+    chk.rule('R2.7', 'the parser loop never keeps a pointer it has released for a later iteration (no double free / use after free on input)')
+    from . import c07, c08
+
+    class OnlyDangling(c08.chk_proxy):
+        def fail(self, rule, key, *a, **kw):
+            if rule == 'R7.2':
+                return self._chk.fail('R2.7', key, *a, **kw)
+            return None            # leaks are C07's business, not memory corruption
+
+        def ok(self, rule, *a, **kw):
+            return self._chk.ok('R2.7', *a, **kw)
+
+        def floor(self, *a, **kw):
+            return None
+    c07.parser_ownership(c, OnlyDangling(chk, {}))
+
 
 # ----------------------------------------------------------------------------
 
